@@ -73,7 +73,7 @@ ENTRY = dict(
             "controller requests (64 / 48) -> EcoMAX.handle_frame -> Request.response() -> write queue -> transport": "driven + compared byte for byte (addressed to the library and broadcast; from ecoSTER / addresses without device class: no reply)",
             "frames for ecoSTER (81) / ECONET (86) / ALL (0)": "driven + compared",
             "shutdown()": "driven (after every case; must complete)",
-            "on_connection_lost / loss of the connection": "producer stage: driven + compared (loss announced once); pool stage: one unjudged scenario (loss with a backlog, see notes)",
+            "on_connection_lost / loss of the connection": "producer stage: driven + compared (loss announced once); pool stage: loss with a backlog behind held consumers, judged (accounting balanced: unfinished = still queued, handled ++ queued = received; a backlog within the pool is handled and shutdown() completes; a larger backlog leaves frames queued with no live consumer and shutdown() waits in Queues.join: the state of open finding F1 (filed under C12), reported as KNOWN-FINDING F1 only when F1's match predicate holds on the observation, any other hang is a violation)",
             "subscribe on device events (delivery)": "observed through the dispatch tasks the consumers create (task factory); byte-identical consecutive frames explicit; sub-devices: also through subscriptions on the Mixer / Thermostat objects",
             "ecoMAX -> Mixer / Thermostat (mixer_sensors, mixer_parameters, thermostat_sensors, thermostat_parameters; registries data['mixers'] / data['thermostats'])": "driven + compared (fan-out machine, Fanout.spec)",
             "Device.handle_frame called directly (no protocol)": "not driven here: C05 (c05_device) drives it; the protocol route ends in the same call",
